@@ -34,6 +34,14 @@ func c08Struct(w *core.W, j int) {
 			continue
 		}
 		touched := handMutate(g, rr)
+		if g.R.IntN(5) == 0 {
+			// the header is a struct a program fills in too: any valid owner name, also for records whose
+			// owner is conventionally the root (OPT) - what the packer writes is what Len has to count
+			if n := g.Name(); n.Valid() {
+				rr.Header().Name = n.Pres()
+				touched = append(touched, "Hdr.Name:name")
+			}
+		}
 		if l.Type == 42 || l.Type == 41 || l.Type == 64 || l.Type == 65 {
 			// types whose RDATA is a list of structured items: more than one try at reaching an item
 			for x := 0; x < 3; x++ {
